@@ -927,6 +927,9 @@ def main():
         tier = args[args.index("--tier") + 1]
     seed = int(os.environ.get("VERIF_SEED", "1"))
     if "--replay" in args:
+        if prop in P.CONC:
+            import conc
+            return conc.replay(prop, args[args.index("--replay") + 1])
         return replay(prop, args[args.index("--replay") + 1])
     t0 = time.time()
     if prop in P.CONC:
